@@ -13,7 +13,7 @@
 EXTENDS Integers, Sequences, FiniteSets, TLC
 
 CONSTANTS Types, KeysX509, KeysPgp, Digests, Modes, MaxRounds,
-          Variant   \* "code" | "Stacks" | "RefuseMutates" | "DropsPayload" | "WrongDigestNamed" | "ProbeBlind"
+          Variant   \* "code" | "Stacks" | "RefuseMutates" | "DropsPayload" | "WrongDigestNamed" | "ProbeBlind" | "SlotDropsOthers"
 
 PgpTypes == {"deb", "rpm", "pgp-detached", "pgp-clearsign", "pgp-inline"}
 
@@ -28,7 +28,8 @@ VariantsOf(t) ==
     [] OTHER -> {"plain"}
 
 \* signer options that may differ between rounds (alt = TRUE selects the type's alternative option set)
-AltOf(t) == IF t \in {"msi", "pe-dll", "pe-exe", "jar", "vsix"} THEN BOOLEAN ELSE {FALSE}
+\* (for deb the alternative option set is the other signing role: "origin" instead of the default "builder")
+AltOf(t) == IF t \in {"msi", "pe-dll", "pe-exe", "jar", "vsix", "deb"} THEN BOOLEAN ELSE {FALSE}
 SlotTypes == {"deb"}        \* named signature slots: re-signing replaces the slot of the same role
 WrapTypes == {"pgp-detached", "pgp-clearsign", "pgp-inline"}   \* output is a new wrapper around / beside the input, not the input re-written
 
@@ -69,8 +70,11 @@ Sign(k, d, alt) ==
   /\ Len(rounds) < MaxRounds /\ alt \in AltOf(typ)
   /\ k \in KeysOf(typ)          \* a PGP type is only ever configured with a PGP key and vice versa
   /\ IF Supported(typ, k, d, alt) /\ ShapeSupported(typ, variant)
-       THEN /\ sigs' = IF Variant = "Stacks" THEN Append(sigs, [key |-> k, digest |-> d])
-                       ELSE <<[key |-> k, digest |-> IF Variant = "WrongDigestNamed" THEN "sha256" ELSE d]>>
+       THEN /\ sigs' = LET new == [key |-> k, digest |-> IF Variant = "WrongDigestNamed" THEN "sha256" ELSE d, slot |-> alt] IN
+                       IF Variant = "Stacks" THEN Append(sigs, new)
+                       \* a named slot is replaced, the other slots stay (deviation "SlotDropsOthers": they are lost)
+                       ELSE IF typ \in SlotTypes /\ Variant # "SlotDropsOthers" THEN SelectSeq(sigs, LAMBDA x : x.slot # alt) \o <<new>>
+                       ELSE <<new>>
             /\ payloadOK' = (payloadOK /\ Variant # "DropsPayload")
             /\ probe' = (Variant # "ProbeBlind")
             /\ rounds' = Append(rounds, [key |-> k, digest |-> d, alt |-> alt, outcome |-> "ok"])
@@ -92,7 +96,8 @@ SignedVerifies ==
      (wellFormed /\ sigs # <<>> /\ sigs[Len(sigs)].key = rounds[Len(rounds)].key /\ sigs[Len(sigs)].digest = rounds[Len(rounds)].digest)
 
 \* re-signing replaces: exactly one signature, whatever the history
-ReplacesNotStacks == LastOK # {} => Len(sigs) = 1
+\* (one per role that was ever signed, for formats with named slots)
+ReplacesNotStacks == LastOK # {} => Len(sigs) = (IF typ \in SlotTypes THEN Cardinality({rounds[i].alt : i \in LastOK}) ELSE 1)
 
 PayloadPreserved == payloadOK
 RefusalLeavesInput == wellFormed
